@@ -685,3 +685,218 @@ Example add_axis_whole_instance :
     /\ denote_elem body h ms' [(s "x", X); (s "w", VA (stacked [2] [a0; a1]))] [true; true] 0 [1; 1] = Ok (s "h(v,r|t)")
     /\ denote_elem body h ms [(s "x", X); (s "w", VA a1)] [true] 0 [1] = Ok (s "h(v,r|t)").
 Proof. cbv zeta. eexists. split; [vm_compute; reflexivity|]. repeat split; vm_compute; reflexivity. Qed.
+
+(* ------------------------------------------------------------------ E. assembling the elements into arrays *)
+Lemma all_indices_snoc : forall sh K,
+  all_indices (sh ++ [K]) = flat_map (fun idx => map (fun n => idx ++ [n]) (seq 0 K)) (all_indices sh).
+Proof.
+  induction sh as [|d sh IH]; intros K.
+  - cbn [app all_indices]. generalize (seq 0 K). intros l. cbn [flat_map]. rewrite app_nil_r. induction l as [|x l IHl]; [reflexivity|]. cbn [flat_map map app all_indices]. f_equal; try exact IHl.
+  - cbn [app all_indices]. rewrite IH.
+    induction (seq 0 d) as [|i l IHl]; cbn [flat_map]; [reflexivity|].
+    rewrite flat_map_app, IHl. f_equal.
+    generalize (all_indices sh). intros L. induction L as [|idx L IHL]; cbn [flat_map map]; [reflexivity|].
+    rewrite map_app, IHL. f_equal. rewrite map_map. reflexivity.
+Qed.
+
+Lemma every_nth_app {A} K n : forall (l1 l2 : list A) i,
+  every_nth K n i (l1 ++ l2) = every_nth K n i l1 ++ every_nth K n (i + length l1) l2.
+Proof.
+  induction l1 as [|x l1 IH]; intros l2 i; cbn [app every_nth length]; [rewrite Nat.add_0_r; reflexivity|].
+  rewrite IH, <- app_assoc. replace (S i + length l1) with (i + S (length l1)) by lia. reflexivity.
+Qed.
+
+Lemma every_nth_window {A} K n i : i mod K = 0 -> forall (b : list A) t0, t0 + length b <= K ->
+  every_nth K n (i + t0) b = match (if t0 <=? n then nth_error b (n - t0) else None) with Some x => [x] | None => [] end.
+Proof.
+  intros Hi. induction b as [|x b IH]; intros t0 Hl; cbn [every_nth length] in *.
+  - destruct (t0 <=? n); [destruct (n - t0)|]; reflexivity.
+  - assert (HK : K <> 0) by lia.
+    assert (Em : (i + t0) mod K = t0).
+    { rewrite Nat.add_mod by exact HK. rewrite Hi. cbn [Nat.add]. rewrite Nat.mod_mod by exact HK. apply Nat.mod_small. lia. }
+    rewrite Em. replace (S (i + t0)) with (i + S t0) by lia. rewrite IH by lia.
+    destruct (Nat.eqb_spec t0 n) as [->|Hne].
+    + rewrite Nat.leb_refl, Nat.sub_diag. cbn [nth_error]. destruct (S n <=? n) eqn:E; [apply Nat.leb_le in E; lia|]. reflexivity.
+    + cbn [app]. destruct (t0 <=? n) eqn:E1.
+      * apply Nat.leb_le in E1. assert (E2 : S t0 <=? n = true) by (apply Nat.leb_le; lia). rewrite E2.
+        replace (n - t0) with (S (n - S t0)) by lia. reflexivity.
+      * apply Nat.leb_gt in E1. assert (E2 : S t0 <=? n = false) by (apply Nat.leb_gt; lia). rewrite E2. reflexivity.
+Qed.
+
+Lemma every_nth_block {A} K n i (b : list A) y : i mod K = 0 -> length b = K -> nth_error b n = Some y ->
+  every_nth K n i b = [y].
+Proof.
+  intros Hi Hl Hn. pose proof (every_nth_window K n i Hi b 0) as H. rewrite Nat.add_0_r in H. rewrite H by lia.
+  cbn [Nat.leb]. rewrite Nat.sub_0_r, Hn. reflexivity.
+Qed.
+
+Lemma mapM_blocks {A} (F' : list nat -> result A) (G : nat -> list nat -> result A) K n :
+  n < K -> forall L d' i, (forall idx m, In idx L -> m < K -> F' (idx ++ [m]) = G m idx) -> i mod K = 0 ->
+  mapM F' (flat_map (fun idx => map (fun m => idx ++ [m]) (seq 0 K)) L) = Ok d' ->
+  mapM (G n) L = Ok (every_nth K n i d').
+Proof.
+  intros Hn. induction L as [|idx L IH]; intros d' i HF Hi E; cbn [flat_map] in E.
+  - cbn in E. injection E as <-. reflexivity.
+  - rewrite mapM_app_loc in E. rewrite mapM_map_loc in E.
+    destruct (mapM (fun x => F' (idx ++ [x])) (seq 0 K)) as [blk|] eqn:Eb; cbn [bind] in E; [|discriminate].
+    destruct (mapM F' (flat_map (fun idx0 => map (fun m => idx0 ++ [m]) (seq 0 K)) L)) as [rest|] eqn:Er; cbn [bind] in E; [|discriminate].
+    injection E as <-.
+    assert (Hlen : length blk = K).
+    { rewrite (mapM_length _ _ _ Eb). apply seq_length. }
+    destruct (mapM_nth _ _ _ n n Eb (nth_error_seq0 K n Hn)) as (y & Hy & Hnth).
+    rewrite HF in Hy by (try (left; reflexivity); exact Hn).
+    cbn [mapM]. rewrite Hy. cbn [bind].
+    rewrite every_nth_app, Hlen, (every_nth_block K n i blk y Hi Hlen Hnth).
+    rewrite (IH rest (i + K)); [reflexivity|intros idx0 m H0 Hm; apply HF; [right; exact H0|exact Hm]| |reflexivity].
+    assert (HK : K <> 0) by lia. rewrite Nat.add_mod by exact HK. rewrite Hi, Nat.mod_same by exact HK. cbn. apply Nat.mod_0_l. exact HK.
+Qed.
+
+Lemma mapM_transfer {A B C} (H' : A -> result B) (H : A -> result C) (P : B -> C -> Prop) : forall l r',
+  mapM H' l = Ok r' -> (forall x y', In x l -> H' x = Ok y' -> exists y, H x = Ok y /\ P y' y) ->
+  exists r, mapM H l = Ok r /\ Forall2 P r' r.
+Proof.
+  induction l as [|x l IH]; intros r' E HP; cbn in E.
+  - injection E as <-. exists []. split; [reflexivity|constructor].
+  - destruct (H' x) as [y'|] eqn:Ex; [|discriminate]. cbn in E. destruct (mapM H' l) as [ys'|] eqn:El; [|discriminate].
+    cbn in E. injection E as <-. destruct (HP x y' (or_introl eq_refl) Ex) as (y & Hy & Py).
+    destruct (IH ys' eq_refl) as (ys & Hys & Pys). { intros x0 y0 Hx0. apply HP. right. exact Hx0. }
+    exists (y :: ys). cbn. rewrite Hy. cbn. rewrite Hys. cbn. split; [reflexivity|constructor; assumption].
+Qed.
+
+(* from the pointwise statement to arrays: every output array of the function with the new axis has, at index n
+   along the new (last) axis, the output array of the original function *)
+Theorem lifts_mapped body f ms ms' kw' (kwn : nat -> env) sh0 K mask arrs' :
+  forallb id mask = true ->
+  (forall n idx j, n < K -> In idx (all_indices sh0) ->
+     denote_elem body f ms' kw' (mask ++ [true]) j (idx ++ [n]) = denote_elem body f ms (kwn n) mask j idx) ->
+  denote_mapped body f ms' kw' (sh0 ++ [K]) (mask ++ [true]) = Ok arrs' ->
+  forall n, n < K -> exists arrs_n, denote_mapped body f ms (kwn n) sh0 mask = Ok arrs_n
+    /\ Forall2 (fun A' A => shp A' = sh0 ++ [K] /\ shp A = sh0 /\ dat A = every_nth K n 0 (dat A')) arrs' arrs_n.
+Proof.
+  intros Hmask Hpt E n Hn. unfold denote_mapped in *. unfold ret_shape_ok in *.
+  rewrite forallb_app in E. cbn [forallb id] in E. rewrite Hmask in E. cbn [andb bind] in E. rewrite Hmask. cbn [bind].
+  apply (mapM_transfer _ _ _ _ _ E). intros j A' _ Ej.
+  destruct (mapM (denote_elem body f ms' kw' (mask ++ [true]) j) (all_indices (sh0 ++ [K]))) as [d'|] eqn:Ed; cbn [bind] in Ej; [|discriminate].
+  injection Ej as <-. rewrite all_indices_snoc in Ed.
+  pose proof (mapM_blocks (denote_elem body f ms' kw' (mask ++ [true]) j) (fun m => denote_elem body f ms (kwn m) mask j) K n
+                Hn (all_indices sh0) d' 0 (fun idx m Hin Hm => Hpt m idx j Hm Hin) (Nat.mod_0_l K ltac:(lia)) Ed) as Hd.
+  rewrite Hd. cbn [bind]. eexists. split; [reflexivity|]. cbn [shp dat]. repeat split.
+Qed.
+
+(* slice_last reads exactly that *)
+Lemma slice_last_arr n sh0 K (d : list str) : n < K ->
+  slice_last n (VA {| shp := sh0 ++ [K]; dat := d |})
+  = Some (match sh0, every_nth K n 0 d with
+          | [], [x] => VS x
+          | _, _ => VA {| shp := sh0; dat := every_nth K n 0 d |}
+          end).
+Proof.
+  intros Hn. unfold slice_last. cbn [shp dat]. rewrite rev_app_distr. cbn [rev app].
+  destruct (K <=? n) eqn:E; [apply Nat.leb_le in E; lia|]. rewrite rev_involutive. destruct sh0; [destruct (every_nth K n 0 d) as [|x [|y t]]|]; reflexivity.
+Qed.
+
+Lemma ext_of_all_true {A} : forall (mask : list bool) (l : list A), forallb id mask = true -> length mask = length l -> ext_of mask l = l.
+Proof.
+  induction mask as [|b mask IH]; intros [|x l] H L; try discriminate; [reflexivity|].
+  cbn in H. apply andb_true_iff in H as [Hb H]. unfold id in Hb. subst b. cbn. rewrite IH; [reflexivity|exact H|cbn in L; lia].
+Qed.
+
+Definition as_val (A : nd str) : val := match shp A, dat A with [], [x] => VS x | _, _ => VA A end.
+
+Lemma slices_of_parts sh0 K n (arrs' arrs_n : list (nd str)) : n < K ->
+  Forall2 (fun A' A => shp A' = sh0 ++ [K] /\ shp A = sh0 /\ dat A = every_nth K n 0 (dat A')) arrs' arrs_n ->
+  Forall2 (fun A' A => slice_last n (VA A') = Some (as_val A)) arrs' arrs_n.
+Proof.
+  intros Hn H. induction H as [|A' A l l' (H1 & H2 & H3) _ IH]; constructor; [|exact IH].
+  destruct A' as [s' d']. destruct A as [s0 d0]. cbn [shp dat] in *. subst. rewrite (slice_last_arr n sh0 K d' Hn).
+  unfold as_val. cbn [shp dat]. destruct sh0; [destruct (every_nth K n 0 d') as [|x [|y t]]|]; reflexivity.
+Qed.
+
+(* add_axis_lifts for ONE function with no internal axes, arrays: both branches of new_spec on a function that has a
+   MapSpec.  Every output array of the function with the new axis, computed from q := stack of arrs, has as its slice
+   at n along the new (last) axis the output array of the ORIGINAL function computed from q := arrs[n]. *)
+Theorem add_axis_lifts_func body f q dims k ms ms' sh arrs kw sh0 mask arrs' :
+  fspec f = Some ms ->
+  (forall a, In a (ins ms ++ outs ms) -> has_axis k a = false) ->
+  (mem_str q (map aname (ins ms)) = true \/ (dict_get dims q = Some (S (length sh)) /\ sh <> [])) ->
+  new_spec f q dims k = Ok ms' ->
+  (forall a, In a arrs -> shp a = sh /\ length (dat a) = prod sh) ->
+  forallb id mask = true -> length mask = length sh0 -> length sh0 = length (external_indices ms) ->
+  denote_mapped body f ms' (map (setq q (VA (stacked sh arrs))) kw) (sh0 ++ [length arrs]) (mask ++ [true]) = Ok arrs' ->
+  forall n an, nth_error arrs n = Some an ->
+  exists arrs_n, denote_mapped body f ms (map (setq q (VA an)) kw) sh0 mask = Ok arrs_n
+    /\ Forall2 (fun A' A => slice_last n (VA A') = Some (as_val A)) arrs' arrs_n.
+Proof.
+  intros Es Hf Hcase E Hshape Hmask Hlen Hext Ed n an Han.
+  assert (Hn : n < length arrs) by (apply nth_error_Some; congruence).
+  destruct (lifts_mapped body f ms ms' (map (setq q (VA (stacked sh arrs))) kw)
+              (fun m => map (setq q (VA (nth m arrs an))) kw) sh0 (length arrs) mask arrs' Hmask) with (n := n)
+    as (arrs_n & En & Hparts); [|exact Ed|exact Hn|].
+  - intros m idx j Hm Hin.
+    assert (Hb : in_bounds sh0 idx = true) by (apply all_indices_in_bounds; exact Hin).
+    assert (Li : length idx = length sh0) by (apply in_bounds_len; exact Hb).
+    assert (Hm' : nth_error arrs m = Some (nth m arrs an)) by (apply nth_error_nth'; exact Hm).
+    assert (He : ext_of mask idx = idx) by (apply ext_of_all_true; [exact Hmask|lia]).
+    destruct (mem_str q (map aname (ins ms))) eqn:Em.
+    + apply (add_axis_lifts_elem body f q dims k ms ms' idx m sh arrs (nth m arrs an) kw mask idx j Es Em Hf E Hshape Hm');
+        [lia|exact He|lia].
+    + destruct Hcase as [Hc|[Hd Hsh]]; [discriminate|].
+      apply (add_axis_lifts_elem_whole body f q dims k ms ms' idx m sh arrs (nth m arrs an) kw mask idx j Es Em Hf Hd Hsh E Hshape Hm');
+        [lia|exact He|lia].
+  - exists arrs_n. split.
+    + rewrite (nth_error_nth _ _ an Han) in En. exact En.
+    + apply (slices_of_parts sh0 (length arrs) n arrs' arrs_n Hn Hparts).
+Qed.
+
+Lemma all_indices_1 K : all_indices [K] = map (fun i => [i]) (seq 0 K).
+Proof. cbn [all_indices]. generalize (seq 0 K). intros l. induction l as [|x l IH]; [reflexivity|]. cbn [flat_map map app]. f_equal; try exact IH. Qed.
+
+(* ... and the branch of a function WITHOUT MapSpec: element n of every output array of the function that got
+   `q[:, .., k] -> outs[k]` is the value the original, unmapped call returns from q := arrs[n] *)
+Theorem add_axis_lifts_func_fresh body f q k dims ms' sh arrs kw arrs' :
+  fspec f = None -> new_spec f q dims k = Ok ms' ->
+  (forall a, In a arrs -> shp a = sh /\ length (dat a) = prod sh) ->
+  dict_get dims q = Some (S (length sh)) -> sh <> [] ->
+  denote_mapped body f ms' (map (setq q (VA (stacked sh arrs))) kw) [length arrs] [true] = Ok arrs' ->
+  forall n an, nth_error arrs n = Some an -> forall j A', nth_error arrs' j = Some A' ->
+  exists outs_n x, body f (map (setq q (VA an)) kw) = Ok outs_n /\ nth_error outs_n j = Some (VS x)
+                   /\ shp A' = [length arrs] /\ nth_error (dat A') n = Some x.
+Proof.
+  intros Es E Hshape Hd Hsh Ed n an Han j A' HA.
+  assert (Hn : n < length arrs) by (apply nth_error_Some; congruence).
+  unfold denote_mapped, ret_shape_ok in Ed. cbn [forallb id andb bind] in Ed.
+  assert (Hj : j < length (fouts f)).
+  { rewrite <- (seq_length (length (fouts f)) 0). rewrite <- (mapM_length _ _ _ Ed). apply nth_error_Some. congruence. }
+  destruct (mapM_nth _ _ _ j j Ed (nth_error_seq0 _ j Hj)) as (A0 & EA & HA0).
+  rewrite HA in HA0. injection HA0 as <-.
+  destruct (mapM (denote_elem body f ms' (map (setq q (VA (stacked sh arrs))) kw) [true] j) (all_indices [length arrs])) as [d|] eqn:Edj;
+    cbn [bind] in EA; [|discriminate]. injection EA as <-. cbn [shp dat].
+  rewrite all_indices_1 in Edj.
+  assert (Hnth : nth_error (map (fun i => [i]) (seq 0 (length arrs))) n = Some [n]).
+  { rewrite nth_error_map, (nth_error_seq0 _ n Hn). reflexivity. }
+  destruct (mapM_nth _ _ _ n [n] Edj Hnth) as (x & Ex & Hx).
+  rewrite (fresh_elem body f q k dims ms' Es E sh arrs Hshape Hd Hsh n an Han kw j) in Ex.
+  destruct (body f (map (setq q (VA an)) kw)) as [outs_n|] eqn:Eb; cbn [bind] in Ex; [|discriminate].
+  destruct (nth_error outs_n j) as [[y|a]|] eqn:Eo; try discriminate. injection Ex as ->.
+  exists outs_n, x. repeat split; [exact Eo|exact Hx].
+Qed.
+
+(* non-vacuity: f : x[i] -> y[i] with the axis k added for x, arrays: the new y has shape [2; 2]; its slice at 1 along
+   the new axis is the y of the original function for the second stacked array *)
+Example add_axis_lifts_func_instance :
+  let A nm ax := {| aname := nm; axes := ax |} in
+  let ms := {| ins := [A (s "x") [Some (s "i")]]; outs := [A (s "y") [Some (s "i")]] |} in
+  let f := {| fname := s "f"; fouts := [s "y"]; fparams := [s "x"]; fbound := []; fdefaults := [];
+              fspec := Some ms; fint := []; fret := [] |} in
+  let a0 := {| shp := [2]; dat := [s "p"; s "q"] |} in
+  let a1 := {| shp := [2]; dat := [s "r"; s "t"] |} in
+  let body := fun (g : mfunc) (kw : env) => match kw with [(_, VS v)] => Ok [VS (s "f(" ++ v ++ s ")")] | _ => Err ValueError end in
+  exists ms' Y' Y1, new_spec f (s "x") [(s "x", 2)] (s "k") = Ok ms'
+    /\ denote_mapped body f ms' [(s "x", VA (stacked [2] [a0; a1]))] [2; 2] [true; true] = Ok [Y']
+    /\ Y' = {| shp := [2; 2]; dat := [s "f(p)"; s "f(r)"; s "f(q)"; s "f(t)"] |}
+    /\ denote_mapped body f ms [(s "x", VA a1)] [2] [true] = Ok [Y1]
+    /\ slice_last 1 (VA Y') = Some (VA Y1).
+Proof.
+  cbv zeta. eexists. eexists. eexists. split; [vm_compute; reflexivity|]. split; [vm_compute; reflexivity|].
+  split; [reflexivity|]. split; vm_compute; reflexivity.
+Qed.
